@@ -63,4 +63,13 @@ def minAbsFeasible (f n a : Rat) : Bool :=
 
 def qabs (x : Rat) : Rat := if x < 0 then -x else x
 
+/-- `_ConvertedMinAbsGoal.relaxation`: the auxiliary variable stands for `|f| / function_nominal` and the
+    converted goal has nominal 1, so the user's relaxation (physical units) is divided by the nominal -/
+def convertedRelaxation (relaxation nominal : Rat) : Rat := relaxation / nominal
+
+/-- upper bound retained for a minimisation goal after its priority (`__goal_hard_constraint`, branch
+    without target bounds, `fix_minimized_values` off or relaxation > 0):
+    `(value + relaxation) / function_nominal + constraint_relaxation` on `function / function_nominal` -/
+def retainedUpper (value relaxation nominal cr : Rat) : Rat := (value + relaxation) / nominal + cr
+
 end RtcVerif.C17
